@@ -3,7 +3,7 @@ import AbraModel.Drv.Util
 /- Driver for M7: `sem <fuel> final|nofinal <program as space-separated S-expression tokens>`.
    Answer: `done <final> <hex output>` | `error:<kind> - <hex output>` | `timeout` | `stuck <why>` | `bad-op`.
    The term language is produced by the harness generator (harness/src/progen.rs); strings travel as hex. -/
-namespace Abra.Drv
+namespace Abra.Drv.BG9
 open Abra.Sem
 
 inductive SExp where
@@ -145,6 +145,12 @@ def renderOutcome (withFinal : Bool) : Outcome → String
   | .error k out => s!"error:{errName k} - {hexOfString (String.join out.reverse)}"
   | .timeout => "timeout"
   | .stuck w => "stuck " ++ w.replace " " "_"
+
+end Abra.Drv.BG9
+
+namespace Abra.Drv
+open Abra.Drv.BG9
+open Abra.Sem
 
 def handleSem : List String → String
   | fuel :: fin :: toks =>
